@@ -295,6 +295,15 @@ def CFr (c c' : Cache) : Prop :=
 
 def Fr3 (s s' : St) : Prop := s'.poolCon = s.poolCon ∧ s'.hasCache = s.hasCache
 
+/-- what `release` guarantees: the connection is idle in the pool or gone, nothing is locked -/
+def RelPost (cf : Cfg) (q p : Bool) (con : Nat) (s s' : St) : Prop :=
+  G cf q p s' ∧ s'.lock = false ∧ s'.cache.inTx = false ∧ CFr s.cache s'.cache ∧ s'.dirty = false ∧
+  s'.hasCache = s.hasCache ∧ (s'.poolCon = some con ∨ s'.poolCon = none)
+
+/-- introduce the postcondition of a callee as separate hypotheses (facts inside ONE hypothesis cannot simplify each other) -/
+macro "mono_intro" : tactic =>
+  `(tactic| (intro _ _; simp only [Fr3, CFr, PoolFr, RelPost, and_imp]; intros))
+
 /-- unfold the invariants to facts about fields and let `simp_all` finish -/
 macro "inv_simp" : tactic => `(tactic| simp_all [G, WBF, lockState, CFr, Fr3, PoolFr])
 
@@ -373,11 +382,6 @@ theorem spec_setTransactionMode (cf : Cfg) (q p : Bool) (con : Nat) (s : St) (hG
       simp [setTransactionMode, conCursor, hin, himm, hd, hfk, hl, hpre, fkAfter, dirtyAfter] <;>
       (repeat' split) <;> simp_all [G, WBF, lockState, CFr, Fr3]
 
-/-- what `release` guarantees: the connection is idle in the pool or gone, nothing is locked -/
-def RelPost (cf : Cfg) (q p : Bool) (con : Nat) (s s' : St) : Prop :=
-  G cf q p s' ∧ s'.lock = false ∧ s'.cache.inTx = false ∧ CFr s.cache s'.cache ∧ s'.dirty = false ∧
-  s'.hasCache = s.hasCache ∧ (s'.poolCon = some con ∨ s'.poolCon = none)
-
 theorem spec_baseRelease (cf : Cfg) (q p : Bool) (con : Nat) (s : St) (hG : G cf q p s) (hc : s.poolCon = some con)
     (hin : s.cache.inTx = false) (hl : s.lock = false) :
     wp (baseRelease cf con) (fun _ s' => RelPost cf q p con s s') (fun _ s' => RelPost cf q p con s s' ∧ q = false) s := by
@@ -415,5 +419,126 @@ theorem spec_provRelease (cf : Cfg) (q p : Bool) (con : Nat) (s : St) (hG : G cf
   · refine wp_mono (spec_baseRelease cf q p con s hG hc hin hl) ?_ ?_
     · intro _ s' h; exact h
     · intro _ s' h; exact h
+
+theorem spec_cacheConnect (cf : Cfg) (q p : Bool) (s : St) (hG : G cf q p s) (hconn : s.cache.conn = none)
+    (hin : s.cache.inTx = false) (hl : s.lock = false) (hd : s.dirty = false)
+    (hddl : cf.ddl = true → s.cache.immediate = true) :
+    wp (cacheConnect cf)
+      (fun con s' => G cf q p s' ∧ s'.cache.conn = some con ∧ s'.poolCon = some con ∧ s'.cache.inTx = s.cache.immediate ∧
+                     s'.lock = s.cache.immediate ∧ s'.cache.immediate = s.cache.immediate ∧
+                     s'.cache.pending = s.cache.pending ∧ s'.hasCache = s.hasCache)
+      (fun _ s' => (G cf q p s' ∧ s'.cache.conn = none ∧ s'.cache.inTx = false ∧ s'.lock = false ∧ s'.dirty = false ∧
+                    s'.cache.immediate = s.cache.immediate ∧ s'.cache.pending = s.cache.pending ∧
+                    s'.hasCache = s.hasCache) ∧ q = false) s := by
+  simp only [cacheConnect, baseConnect, wp_bind, wp_getS, wp_assertM, wp_wrap, wp_ite, wp_tryCatch, wp_raise, wp_modC,
+    wp_pure, hconn, hin]
+  simp only [decide_true, if_true, Bool.false_eq_true, if_false]
+  refine wp_mono (spec_poolConnect cf q p s hG) ?_ ?_
+  · rintro ⟨con, isNew⟩ s1 ⟨hG1, hpc1, hd1, hl1, hc1, hh1⟩
+    simp only
+    have hd1' : s1.dirty = false := by cases h : s1.dirty <;> simp_all
+    refine wp_mono (spec_setTransactionMode cf q p con s1 hG1 (by rw [hc1, hin]) (by rw [hl1, hl]) (by rw [hc1]; exact hddl)) ?_ ?_
+    · mono_intro
+      simp_all [G]
+    · intro _ s2 h
+      obtain ⟨⟨hG2, hin2, hl2, hcn2, him2, hp2, hfr2⟩, hq⟩ := h
+      refine wp_mono (spec_provDrop cf q p con s2 hG2 (by rw [hl2, hin2]) (by simp_all [Fr3])) ?_ ?_
+      · mono_intro; simp_all [Fr3, G]
+      · mono_intro; simp_all [Fr3, G]
+  · mono_intro
+    rename_i s1 _ hd1 _ _ _ _
+    have hd1' : s1.dirty = false := by cases h : s1.dirty <;> simp_all
+    simp_all [G]
+
+/-- the session-cache invariant (holds between the operations of a session and between sessions) -/
+def CInv (cf : Cfg) (s : St) : Prop :=
+  s.lock = s.cache.inTx ∧ (s.cache.inTx = true → s.cache.conn.isSome = true) ∧
+  (∀ k, s.cache.conn = some k → s.poolCon = some k) ∧ (s.hasCache = false → s.cache.conn = none) ∧
+  (s.dirty = true → s.cache.conn.isSome = true) ∧ (s.hasCache = true → cf.ddl = true → s.cache.immediate = true)
+
+def Inv (cf : Cfg) (q p : Bool) (s : St) : Prop := G cf q p s ∧ CInv cf s
+
+/-- the cache stays registered and keeps its `immediate` flag and its pending statements -/
+def Keep (s s' : St) : Prop :=
+  s'.hasCache = true ∧ s'.cache.immediate = s.cache.immediate ∧ s'.cache.pending = s.cache.pending
+
+/-- like `mono_intro`, also opening the session-level invariants -/
+macro "mono_intro2" : tactic =>
+  `(tactic| (intro _ _; simp only [Inv, CInv, Keep, G, Fr3, CFr, PoolFr, RelPost, and_imp]; intros))
+
+theorem spec_cacheReconnect (cf : Cfg) (q p : Bool) (e : Exc) (con : Nat) (s : St) (hI : Inv cf q p s)
+    (hh : s.hasCache = true) (hconn : s.cache.conn = some con) :
+    wp (cacheReconnect cf e)
+      (fun con' s' => Inv cf q p s' ∧ Keep s s' ∧ s'.cache.conn = some con' ∧ s'.cache.inTx = s'.cache.immediate)
+      (fun _ s' => Inv cf q p s' ∧ Keep s s') s := by
+  obtain ⟨hG, hl, htx, hcp, hdead, hdirty, hddl⟩ := hI
+  simp only [cacheReconnect, wp_bind, wp_ite, wp_raise, wp_getS, wp_pure, hconn, wp_modC]
+  split
+  · simp_all [Inv, CInv, Keep]
+  · refine wp_mono (spec_provDrop cf q p con _ (by simpa [G] using hG) (by simpa using hl) (by simpa using hcp con hconn)) ?_ ?_
+    · mono_intro
+      rename_i s1 hG1 hl1 hin1 hc1 _ _ _ hd1 hp1 hh1
+      refine wp_mono (spec_cacheConnect cf q p s1 hG1 (by simpa using hc1) hin1 hl1 hd1 (by simp_all)) ?_ ?_
+      · mono_intro; simp_all [Inv, CInv, Keep]
+      · mono_intro; simp_all [Inv, CInv, Keep]
+    · mono_intro; simp_all [Inv, CInv, Keep]
+
+theorem spec_prepareCore (cf : Cfg) (q p : Bool) (s : St) (hI : Inv cf q p s) (hh : s.hasCache = true) :
+    wp (prepareCore cf)
+      (fun con s' => Inv cf q p s' ∧ Keep s s' ∧ s'.cache.conn = some con ∧ (s'.cache.immediate = true → s'.cache.inTx = true))
+      (fun _ s' => (Inv cf q p s' ∧ Keep s s') ∧ q = false) s := by
+  obtain ⟨hG, hl, htx, hcp, hdead, hdirty, hddl⟩ := hI
+  simp only [prepareCore, wp_bind, wp_getS]
+  cases hconn : s.cache.conn with
+  | none =>
+    have hin : s.cache.inTx = false := by cases h : s.cache.inTx <;> simp_all
+    have hd : s.dirty = false := by cases h : s.dirty <;> simp_all
+    simp only
+    refine wp_mono (spec_cacheConnect cf q p s hG hconn hin (by rw [hl, hin]) hd (hddl hh)) ?_ ?_
+    · mono_intro; simp_all [Inv, CInv, Keep]
+    · mono_intro; simp_all [Inv, CInv, Keep]
+  | some con =>
+    simp only [wp_ite, wp_tryCatch, wp_bind, wp_pure]
+    split
+    · rename_i hc
+      have hin : s.cache.inTx = false := by simp_all
+      refine wp_mono (spec_setTransactionMode cf q p con s hG hin (by rw [hl, hin]) (hddl hh)) ?_ ?_
+      · mono_intro; simp_all [Inv, CInv, Keep]
+      · mono_intro
+        rename_i e s1 _ _ _ _ _ _ _ _ _
+        refine wp_mono (spec_cacheReconnect cf q p e con s1 (by simp_all [Inv, CInv]) (by simp_all) (by simp_all)) ?_ ?_
+        · mono_intro; simp_all [Inv, CInv, Keep]
+        · mono_intro; simp_all [Inv, CInv, Keep]
+    · rename_i hc
+      simp_all [Inv, CInv, Keep]
+
+
+theorem spec_execTail (cf : Cfg) (q p : Bool) (con : Nat) (sql : Sql) (many : Bool) (s : St) (hI : Inv cf q p s)
+    (hh : s.hasCache = true) (hconn' : s.cache.conn.isSome = true) (himm : s.cache.immediate = true → s.cache.inTx = true) :
+    wp (execTail cf con sql many)
+      (fun _ s' => Inv cf q p s' ∧ Keep s s' ∧ s'.cache.conn.isSome = true ∧ (s'.cache.immediate = true → s'.cache.inTx = true))
+      (fun _ s' => (Inv cf q p s' ∧ Keep s s') ∧ q = false) s := by
+  obtain ⟨con0, hconn⟩ := Option.isSome_iff_exists.mp hconn'
+  obtain ⟨⟨hA, hW, hF⟩, hl, htx, hcp, hdead, hdirty, hddl⟩ := hI
+  simp only [execTail, conCursor, provExecute, conExecuteMany, wp_bind, wp_dbcall, wp_tryCatch, wp_wrap, wp_ite, wp_getS,
+    wp_modC, wp_pure, wp_conExecute]
+  rcases FlF_cases hF with ⟨hf, hq, hF1⟩ | ⟨hf, hF1⟩
+  · subst hq
+    simp_all [Inv, CInv, Keep, G]
+  · simp only [hf, Bool.false_eq_true, if_false]
+    cases many <;> simp only [Bool.false_eq_true, if_false, if_true]
+    all_goals
+      rcases FlF_cases hF1 with ⟨hf2, hq, hF2⟩ | ⟨hf2, hF2⟩
+      · subst hq
+        simp only [hf2, if_true]
+        refine wp_mono (spec_cacheReconnect cf false p _ con0 _ ?_ ?_ ?_) ?_ ?_
+        · simp_all [Inv, CInv, G]
+        · simpa using hh
+        · simpa using hconn
+        · mono_intro2
+          (repeat' split) <;> simp_all [Inv, CInv, Keep, G]
+        · mono_intro2; simp_all [Inv, CInv, Keep, G]
+      · simp only [hf2, Bool.false_eq_true, if_false]
+        split <;> simp_all [Inv, CInv, Keep, G]
 
 end PonyVerif.Model.ConnLock
